@@ -97,7 +97,8 @@ fn first_diff(a: &Obs, b: &Obs) -> Option<String> {
 fn value_diff(a: &Value, b: &Value, path: &str) -> Option<String> {
     match (a, b) {
         (Value::Object(x), Value::Object(y)) => {
-            for k in x.keys().chain(y.keys()) {
+            let keys: std::collections::BTreeSet<&String> = x.keys().chain(y.keys()).collect();
+            for k in keys {
                 if let Some(d) = value_diff(x.get(k).unwrap_or(&Value::Null), y.get(k).unwrap_or(&Value::Null), &format!("{path}/{k}")) {
                     return Some(d);
                 }
@@ -150,6 +151,10 @@ pub fn check_roundtrip(dm: &DecodedMap, case: &Value, tag: &str) -> Vec<Viol> {
         }
         // serialising a decoded map, decoding and serialising again reproduces the bytes
         let b1 = ser(&d).map_err(|e| ("serialise-error".to_string(), e))?;
+        if tag.starts_with("decoded") && bytes != b1 {
+            // the subject itself is a decoded map: its own serialisation must already be the fixpoint
+            return Err(("reserialise-differs".into(), format!("first:  {}\nsecond: {}", String::from_utf8_lossy(&bytes), String::from_utf8_lossy(&b1))));
+        }
         let d2 = decode_slice(&b1).map_err(|e| ("decode-of-own-output-fails".to_string(), format!("second decode failed: {e}")))?;
         let b2 = ser(&d2).map_err(|e| ("serialise-error".to_string(), e))?;
         if b1 != b2 {
@@ -266,6 +271,42 @@ pub fn run(run: &mut Run) -> Finish {
             l.case(true, shape_class(&m));
         }
     });
+    // U: maps decoded from arbitrary well-formed documents (unsorted columns, empty segments,
+    // 1-field segments between sourced ones): the decoded map is the subject
+    let (ul, us) = (tier.pick(2usize, 3), 3usize);
+    let nu = crate::c02::l1_count(ul, us);
+    run.par_slice("U: maps decoded from every document structure of <= 2/3 lines x <= 3 slots of {empty, 1-, 4-, 5-field} segments under four value patterns incl. unsorted and zig-zag columns", 9, nu * 4, |idx, l| {
+        let k = idx & ((1 << 40) - 1);
+        let st = crate::c02::l1_structure(k / 4, ul, us);
+        let lines = crate::c02::l1_lines(&st, (k % 4) as usize);
+        let (doc, _) = crate::c02::doc_of(&lines, &["a", "b", "c"], &["x", "y", "z"]);
+        let case = json!({"kind": "document", "document": String::from_utf8_lossy(&doc)});
+        if let Ok(Ok(dm)) = guarded(|| decode_slice(&doc)) {
+            for x in check_roundtrip(&dm, &case, "decoded-from-unsorted-document") {
+                l.violation(idx, x);
+            }
+            l.case(true, h64(&("U", st.iter().map(|l| l.len()).collect::<Vec<_>>(), k % 4)));
+        }
+    });
+    // N: nesting depth of index maps
+    let depths: Vec<usize> = vec![1, 2, 5, 20, 41, 42, 43, 60];
+    run.par_slice("N: index maps nested 1..60 levels deep (one section per level)", 10, depths.len() as u64, |idx, l| {
+        let depth = depths[(idx & 0xff) as usize];
+        let mut doc = RDoc::Regular(t_map(2, 50));
+        for level in 0..depth {
+            doc = RDoc::Index(RIndex { file: None, sections: vec![RSection { off: (level as u32 % 3, 0), url: None, map: Some(Box::new(doc)) }] });
+        }
+        let case = json!({"kind": "nested", "depth": depth});
+        if let Ok(Some(dm)) = guarded(|| construct_doc(&doc, 0)) {
+            for mut x in check_roundtrip(&dm, &case, "constructed") {
+                if depth >= 42 && x.sig.starts_with("C01/decode-of-own-output-fails") {
+                    x.sig = "C01/decode-of-own-output-fails/index-nested-42-or-more-levels".into();
+                }
+                l.violation(idx, x);
+            }
+            l.case(true, h64(&("N", depth)));
+        }
+    });
     let ndup = dup_count();
     run.par_slice("D: sources [same, same], names [same, same]: every multiset of <= 3 tokens that differ only in the source / name index, raw constructor and decoded", 8, ndup * 2, |idx, l| {
         let k = idx & ((1 << 40) - 1);
@@ -336,6 +377,32 @@ pub fn recheck(case: &Value) -> Vec<Viol> {
     let how = case["how"].as_u64().unwrap_or(0) as usize;
     match case["kind"].as_str() {
         Some("regular") => serde_json::from_value::<RMap>(case["model"].clone()).map(|m| check_regular(&m, how).0).unwrap_or_default(),
+        Some("document") => {
+            let doc = case["document"].as_str().unwrap_or("").as_bytes().to_vec();
+            match guarded(|| decode_slice(&doc)) {
+                Ok(Ok(dm)) => check_roundtrip(&dm, case, "decoded-from-unsorted-document"),
+                _ => vec![],
+            }
+        }
+        Some("nested") => {
+            let depth = case["depth"].as_u64().unwrap_or(1) as usize;
+            let mut doc = RDoc::Regular(t_map(2, 50));
+            for level in 0..depth {
+                doc = RDoc::Index(RIndex { file: None, sections: vec![RSection { off: (level as u32 % 3, 0), url: None, map: Some(Box::new(doc)) }] });
+            }
+            match guarded(|| construct_doc(&doc, 0)) {
+                Ok(Some(dm)) => check_roundtrip(&dm, case, "constructed")
+                    .into_iter()
+                    .map(|mut x| {
+                        if depth >= 42 && x.sig.starts_with("C01/decode-of-own-output-fails") {
+                            x.sig = "C01/decode-of-own-output-fails/index-nested-42-or-more-levels".into();
+                        }
+                        x
+                    })
+                    .collect(),
+                _ => vec![],
+            }
+        }
         Some("doc") => serde_json::from_value::<RDoc>(case["doc"].clone()).map(|d| check_doc(&d, how).0).unwrap_or_default(),
         _ => vec![],
     }
